@@ -42,6 +42,10 @@ type Base struct {
 	col  int
 }
 
+func (b *Base) base() *Base {
+	return b
+}
+
 // Core returns true if the type is one of the built in types.
 func (b *Base) Core() bool {
 	return b.core
